@@ -150,8 +150,12 @@ def o_source(a):
                 t = numpy.array(h['EVENTS'].data['TIME'], dtype=float)
                 ph = numpy.array(h['EVENTS'].data['PHASE'], dtype=float)
                 tstart = h['EVENTS'].header['TSTART']
-            ref = xEphemeris(**e).fold(t, tstart)
+            # the phases the events were generated with are counted from the start of the run: that is what the PHASE column must reproduce
+            # (the header TSTART the application folds with has to be that very instant)
+            ref = xEphemeris(**e).fold(t, start)
             dd = numpy.abs(((ph - ref + 0.5) % 1.) - 0.5)
+            if tstart != start:
+                bad.append('file of the run starting at %r: TSTART = %r' % (start, tstart))
             if len(t) < 50:
                 bad.append('only %d events' % len(t))
             elif dd.max() > 3e-7:
@@ -232,8 +236,12 @@ def explore(chk, budget=1):
         nontriv = eph['nudot0'] != 0 and eph['met0'] != start
         run_oracle(chk, 'roundtrip', dict(eph=eph, start=start, duration=duration, seed=int(g.integers(1, 10 ** 6))), nontrivial=nontriv)
         t = numpy.sort(g.uniform(start, start + duration, 40))
-        phi0 = float(g.choice([0., g.uniform(0, 1)]))
+        phi0 = float(g.choice([0., g.uniform(0, 1), -0.25, 1.5, g.uniform(-2., 3.)]))       # the offset is any real number: the fold is taken modulo one
         impl = xEphemeris(**eph).fold(t, start, phi0)
+        chk.case(dict(op='fold-range', phi0=phi0, nu0=eph['nu0']), nontrivial=not (0. <= phi0 < 1.))
+        if (numpy.asarray(impl) < 0.).any() or (numpy.asarray(impl) >= 1.).any():
+            chk.fail('impl', 'fold with phase offset %r: folded phases span [%.4f, %.4f], not [0, 1)' % (phi0, float(numpy.min(impl)), float(numpy.max(impl))),
+                     dict(oracle='fold-range', eph=eph, start=start, phi0=phi0))
         drv.ask('fold %d %d %d %d %d %d %d %s' % (f2b(eph['met0']), f2b(eph['nu0']), f2b(eph['nudot0']), f2b(eph['nuddot']), f2b(start), f2b(phi0), len(t), ' '.join(str(f2b(x)) for x in t)))
         jobs.append((eph, start, phi0, t, impl))
     # generated times
@@ -248,7 +256,7 @@ def explore(chk, budget=1):
         eph = dict(met0=start - float(g.choice([0., 1234.567])), nu0=nu0, nudot0=float(g.choice([0., -1e-12])), nuddot=0.)
         run_oracle(chk, 'rvs', dict(eph=eph, start=start, duration=c['periods'] / nu0, profile=c['profile'], n=c['n'], seed=int(g.integers(1, 10 ** 6))),
                    nontrivial=abs(c['periods'] - round(c['periods'])) > 0.01)
-    run_oracle(chk, 'source', dict(starts=[20000., 31234.567], du=int(g.integers(1, 4)), seed=int(g.integers(1, 10 ** 6))))
+    run_oracle(chk, 'source', dict(starts=[20000., 31234.567891], du=int(g.integers(1, 4)), seed=int(g.integers(1, 10 ** 6))))
     for start in (0., 12345.678, float(g.uniform(1e3, 1e6))):
         run_oracle(chk, 'seedflow', dict(start=start, du=int(g.integers(1, 4)), seed=int(g.integers(1, 10 ** 6))), nontrivial=start != 0.)
         run_oracle(chk, 'seedflow', dict(start=start, du=int(g.integers(1, 4)), seed=int(g.integers(1, 10 ** 6)), late=float(g.uniform(5., 60.))), nontrivial=True)
